@@ -31,15 +31,30 @@ RULE = ("(a) structured stream over a common pool of factors (harness/gen_expr.p
         "nested products) x orderings (None, shuffled covering, non-covering) for canonicalize; pairs (expression, "
         "presentation-shuffle / independent / mutated expression) for canonical_expr_equal; `den` cross-check of the Lean "
         "specification against the Python evaluator. 70% of the random stream is WellScoped (the property's quantifier, "
-        "judged by the oracle), 30% is wild (multi-world leaves, duplicate names, bound +X, Q-factors: correspondence only). "
+        "judged by the oracle), 30% is wild (multi-world leaves, duplicate names, bound +X, Q-factors: judged when inside the "
+        "widened class WellScopedW, else correspondence only). "
+        "(c) multi-world joints (gen_expr.struct_mw_*, appended after the streams above, which keep their distribution): "
+        "parent-less joint leaves whose children share a base variable across worlds / value marks (P(Y@+X, Y@-X, Z), P(Y, +Y)) "
+        "under Sums in every relation between the ranges and the duplicated / single bases (dup / single / both / all / "
+        "superset / partial / miss) x {P, PP[pi1]} x wrapper, leaves that only appear after canonicalising the summand, bare "
+        "multi-world leaves in products and fractions, multi-world leaves with distinct bases (the marginalisation must still "
+        "happen). They are INSIDE the quantifier judged by the oracle (WellScopedW) and evaluated on generic positive families "
+        "and on random functional SCMs (shared noise across worlds) under the DenNZ guard. "
+        "(d) size and ordering shapes (appended): wide WellScoped leaves (4-6 children, 3-4 parents, 3-4 interventions with "
+        "mixed stars, 6-9 names) under Sums in every range mode and in products / fractions; orderings that cover only the "
+        "event names (subscript-only / range-only names omitted: admissible, the canonicaliser looks up event variables "
+        "only), orderings with counterfactual / value-marked / Intervention elements (admissible: Sequence[str | Variable], "
+        "what canonical_expr_equal itself passes), orderings with repeated elements (malformed: raises or is right). "
         "The branches reached on the real canonicaliser are counted as hit_* tags. A case is non-trivial when the "
         "expression has depth>=3 and at least one Sum or Fraction and its canonical form differs structurally from the input.")
 ASSUMPTIONS = [
     "argument FORMS (harness/forms.py; chosen deterministically per case, stored in the case, tagged form_*): the ordering handed to canonicalize as list / tuple (the declared Sequence) and as set / frozenset / dict keys / generator / iterator / map (what dsl.ensure_ordering, its consumer, accepts: Iterable), its plain variables as Variable objects, as str names, or mixed; positional or by keyword; no ordering as omitted / None / ordering=None; canonical_expr_equal positional or by keyword (left=, right=). The model takes a list of variables: independence of the form is a runtime clause decided by correspondence + oracle",
-    "canon_den is proved for WellScoped expressions (single-world leaves with pairwise distinct names, intervened names disjoint from the leaf's own variables, no +X bound by an enclosing Sum, no Q-factor) and orderings covering the event names, under ProbFamily env and non-vanishing denominators (DenNonzero, implied by Env.Positive for expressions without Zero() in a denominator); multi-world joint terms are outside the quantifier (Sum.simplify's own FIXME)",
+    "canon_den is proved for WellScoped expressions (single-world leaves with pairwise distinct names, intervened names disjoint from the leaf's own variables, no +X bound by an enclosing Sum, no Q-factor) and orderings covering the event names, under ProbFamily env and non-vanishing denominators (DenNonzero, implied by Env.Positive for expressions without Zero() in a denominator)",
+    "multi-world joints: canon_den_mw / canon_total_mw / canonical_equal_sound_mw (Props/C10MW.lean) prove the same for the WIDENED class WellScopedW - nothing is required of the worlds or names of a leaf (children in different worlds, several children on one base variable); an unstarred subscript -X must not name a variable of its own leaf that a Sum of the expression binds (the Sum would bind subscript and event value together), no +X event value bound by a Sum, no Q-factor - for every ProbFamily (a measure on ALL counterfactual variables), in particular every well-formed functional SCM (canon_den_mw_fscm). On this class DenNZ is NOT implied by positivity (P(Y@+X, +Y@-X) vanishes at x*=x, y*!=y): it stays a hypothesis, and the oracle decides it by enumeration (expr_eval.den_nonzero) before comparing values. The model is that of the code after `fix:` d517ad1 (Sum.simplify returns the sum unchanged when several children share a base variable)",
+    "outside WellScopedW (correspondence only): a Sum binding an unstarred subscript together with the event value of the same leaf (Sum[X](P(Y@-X, X))), +X values bound by a Sum, Q-factors",
     "the Lean theorems are about the hand-written model Y0.Model.Canon/Dsl; the tie to canonicalize_expr.py/dsl.py is this run's correspondence check (sampling)",
     "Python set/frozenset iteration order is modelled as sorted order; populations are plain variables; Sum ranges are plain variables (what Sum.__post_init__ and the builders produce)",
-    "the oracle decides semantic equality by identity testing on 2 generic positive environments (drawn per case from a per-process pool of 12 cached mixture-of-products environments, a separate distribution per population and per world) x 3 random valuations (exact rationals): it cannot flag a correct rewrite, it can miss an incorrect one with small probability",
+    "the oracle decides semantic equality by identity testing on 2 generic positive environments (drawn per case from a per-process pool of 12 cached mixture-of-products environments, a separate distribution per population and per world) x 3 random valuations (exact rationals), and for expressions that are only in the widened class additionally on 1 random functional SCM per case (expr_eval.FscmEnv: random mechanisms, exogenous noise shared by all worlds) x 3 valuations, comparing only where DenNZ holds: it cannot flag a correct rewrite, it can miss an incorrect one with small probability",
 ]
 LEANCHECK_MODULES = ["Y0.Model.Dsl", "Y0.Model.Canon", "Y0.Props.C10"]
 EXHAUSTIVE = {"quick": False, "thorough": False}
@@ -132,6 +147,74 @@ def structured_cases(rng: random.Random, n: int):
     return out
 
 
+def mw_cases(rng: random.Random, n: int):
+    """multi-world joints (gen_expr.struct_mw_*): leaves whose children share a base variable across worlds / value marks,
+    under Sums in every relation between the ranges and the duplicated / single bases, systematically x {P, PP} x
+    wrapper; bare multi-world leaves in products and fractions; multi-world leaves with distinct bases"""
+    out = []
+    for mode in GE.MW_MODES:
+        for pop in (False, GE.POPS[0]):
+            for wrap in ("none", "prod", "num", "den", "sum"):
+                for _ in range(max(1, n // 350)):
+                    nn = rng.choice([3, 4, 4, 5])
+                    e, lab = GE.struct_mw_sum(rng, nn, mode=mode, pop=pop, wrap=wrap)
+                    out.append({"kind": "canon", "e": e, "ordering": _rand_ordering_choice(rng, e, nn),
+                                "seed": rng.randrange(1 << 30), "gen": lab})
+    while len(out) < n:
+        nn = rng.choice([3, 4, 4, 5])
+        e, lab = GE.struct_mw_expr(rng, nn)
+        r = rng.random()
+        if r < 0.78:
+            out.append({"kind": "canon", "e": e, "ordering": _rand_ordering_choice(rng, e, nn),
+                        "seed": rng.randrange(1 << 30), "gen": lab})
+        elif r < 0.88:
+            out.append({"kind": "equal", "a": e, "b": GE.present_shuffle(rng, e), "seed": rng.randrange(1 << 30),
+                        "gen": "shuffle:" + lab})
+        elif r < 0.94:
+            out.append({"kind": "den", "e": e, "seed": rng.randrange(1 << 30), "gen": lab})
+        else:
+            out.append({"kind": "wsw", "e": e, "gen": lab})
+    return out
+
+
+def _ordering_shape_choice(rng, e, nn):
+    """(ordering, kind): the old shapes (None / covering list of plain variables) 40%, the new shapes 60%"""
+    if rng.random() < 0.4:
+        return _rand_ordering_choice(rng, e, nn), "plain"
+    kind = rng.choice(GE.ORDERING_SHAPES)
+    return GE.rand_ordering_shape(rng, e, kind, nn), kind
+
+
+def shape_cases(rng: random.Random, n: int):
+    """(d) size and ordering shapes: wide WellScoped leaves (4-6 children, 3-4 parents, 3-4 interventions with mixed stars,
+    6-9 names) under Sums in every range mode / in products and fractions; orderings that cover only the event names,
+    contain counterfactual / value-marked / Intervention elements, or repeat elements (malformed: 'raises or is right')"""
+    out = []
+    while len(out) < n:
+        k = rng.random()
+        if k < 0.55:
+            e, lab = GE.struct_wide_expr(rng)
+            nn = max(GE.all_names(e)) + 1
+        elif k < 0.8:
+            nn = rng.choice([3, 4, 4, 5])
+            e, lab = GE.struct_expr(rng, nn)
+        else:
+            nn = rng.choice([3, 4, 4, 5])
+            e, lab = GE.struct_mw_expr(rng, nn)
+            nn += 3
+        o, kind = _ordering_shape_choice(rng, e, nn)
+        r = rng.random()
+        if r < 0.85:
+            out.append({"kind": "canon", "e": e, "ordering": o, "ordering_kind": kind, "seed": rng.randrange(1 << 30),
+                        "gen": lab})
+        elif r < 0.95:
+            out.append({"kind": "equal", "a": e, "b": GE.present_shuffle(rng, e), "seed": rng.randrange(1 << 30),
+                        "gen": "shuffle:" + lab})
+        else:
+            out.append({"kind": "den", "e": e, "seed": rng.randrange(1 << 30), "gen": lab})
+    return out
+
+
 def cases(rng: random.Random, tier: str):
     return [F.assign(c, _slots(c)) for c in _cases(rng, tier)]
 
@@ -142,6 +225,8 @@ def _cases(rng: random.Random, tier: str):
     out = _load_corpus()
     out += structured_cases(rng, 3000 if tier == "quick" else 15000)
     out += random_cases(rng, 5000 if tier == "quick" else 65000)
+    out += mw_cases(rng, 1000 if tier == "quick" else 8000)     # appended: the streams above keep their distribution
+    out += shape_cases(rng, 900 if tier == "quick" else 7000)
     return out
 
 
@@ -167,8 +252,10 @@ def random_cases(rng: random.Random, n: int):
             out.append({"kind": "equal", "a": e, "b": b, "seed": rng.randrange(1 << 30)})
         elif r < 0.96:
             out.append({"kind": "den", "e": e, "seed": rng.randrange(1 << 30)})
-        else:
+        elif r < 0.98:
             out.append({"kind": "ws", "e": e})
+        else:
+            out.append({"kind": "wsw", "e": e})
     return out
 
 
@@ -198,12 +285,23 @@ ERRS = (KeyError, TypeError, ZeroDivisionError, ValueError, AttributeError, Inde
 
 
 def _in_quantifier(e, ordering):
-    """is (e, ordering) inside the quantifier of C10: well-scoped, denominators free of Zero(), ordering covering"""
-    if not (GE.well_scoped(e) and GE.zero_free_denominators(e)):
+    """is (e, ordering) inside the quantifier of C10: well-scoped, denominators free of Zero(), ordering covering.
+    "narrow": single-world leaves with distinct names (WellScoped: DenNZ follows from positivity of the environment);
+    "wide": WellScopedW only (multi-world joints, shared base variables): a denominator can vanish at a conflicting
+    valuation even in a positive family, so the oracle checks DenNZ itself (expr_eval.den_nonzero); False: outside."""
+    if not (GE.well_scoped_mw(e) and GE.zero_free_denominators(e)):
         return False
     if ordering is not None and not GE.event_names(e) <= {int(v[1]) for v in ordering}:
         return False
-    return True
+    return "narrow" if GE.well_scoped(e) else "wide"
+
+
+def _identity(E, a, b, rng, inq, both=False):
+    """the oracle: narrow class = 2 generic positive families x 3 valuations; wide class = the same under the DenNZ guard
+    plus one random FUNCTIONAL SCM per population (the semantics of multi-world joints)"""
+    if inq == "wide":
+        return E.identity_test(a, b, rng, n_envs=2, n_sigma=3, shared=True, guard_nz="both" if both else True, n_fscm=1)
+    return E.identity_test(a, b, rng, n_envs=2, n_sigma=3, shared=True)
 
 
 def _tags(e, extra=None, case=None, feats=True):
@@ -253,16 +351,25 @@ def run_python(case):
         except ERRS as ex:
             c = None
             out = ["err"]
-            if inq:
+            if case.get("ordering_kind") == "dups":
+                pass      # an ordering with repeated elements is malformed: raising is fine, a returned form is judged
+            elif inq == "narrow":
                 fail = f"canonicalize raised {type(ex).__name__} on a well-scoped expression with a covering ordering"
+            elif inq == "wide" and not isinstance(ex, ZeroDivisionError):
+                # (a denominator of a wide expression may canonicalise to Zero only when DenNZ fails: not judged)
+                fail = f"canonicalize raised {type(ex).__name__} on a well-scoped multi-world expression with a covering ordering"
         if c is not None and inq:
-            w = E.identity_test(e, c, rng, n_envs=2, n_sigma=3, shared=True)
+            w = _identity(E, e, c, rng, inq)
             if w is not None:
                 fail = f"canonical form {c} denotes a different function than {e}: {json.dumps(w, sort_keys=True)}"
         nontrivial = bool(c is not None and GE.depth(enc) >= 3 and ("sum" in GE.constructors(enc) or "frac" in GE.constructors(enc))
                           and X.to_str_tree(enc) != out[1])
         return {"out": out, "fail": fail, "nontrivial": nontrivial,
-                "tags": _tags(enc, {"kind": kind, "outcome": out[0], "judged": inq,
+                "tags": _tags(enc, {"kind": kind, "outcome": out[0], "judged": bool(inq), "judged_wide": inq == "wide",
+                                    "shared_base": GE.has_shared_base(enc), "multiworld": GE.is_multiworld(enc),
+                                    "ordering_kind": case.get("ordering_kind", "plain" if case["ordering"] is not None else "none"),
+                                    "leaf_children>=4": GE.leaf_sizes(enc)[0] >= 4, "leaf_parents>=3": GE.leaf_sizes(enc)[1] >= 3,
+                                    "leaf_ivs>=3": GE.leaf_sizes(enc)[2] >= 3,
                                     "ordering": "none" if case["ordering"] is None else "explicit",
                                     **F.tags(_forms(case))}, case)}
     if kind == "equal":
@@ -274,14 +381,18 @@ def run_python(case):
         except ERRS:
             r = None
             out = ["err"]
-        if r and _in_quantifier(case["a"], None) and _in_quantifier(case["b"], None):
-            w = E.identity_test(a, b, rng, n_envs=2, n_sigma=3, shared=True)
+        qa, qb = _in_quantifier(case["a"], None), _in_quantifier(case["b"], None)
+        if r and qa and qb:
+            w = _identity(E, a, b, rng, "wide" if "wide" in (qa, qb) else "narrow", both=True)
             if w is not None:
                 fail = f"canonical_expr_equal({a}, {b}) is True but the expressions differ: {json.dumps(w, sort_keys=True)}"
         return {"out": out, "fail": fail, "nontrivial": bool(r) and case["a"] != case["b"],
                 "tags": _tags(case["a"], {"kind": kind, "outcome": out[0] if r is None else out[1], **F.tags(_forms(case))}, case)}
     if kind == "ws":   # the quantifier predicate itself: Python mirror vs Lean `WellScoped`
         return {"out": ["ok", "true" if GE.well_scoped(case["e"]) else "false"], "fail": None, "nontrivial": False,
+                "tags": _tags(case["e"], {"kind": kind})}
+    if kind == "wsw":  # the widened quantifier: Python mirror vs Lean `WellScopedW`
+        return {"out": ["ok", "true" if GE.well_scoped_mw(case["e"]) else "false"], "fail": None, "nontrivial": False,
                 "tags": _tags(case["e"], {"kind": kind})}
     if kind == "den":
         val, _ = _den_python(case)
@@ -331,6 +442,8 @@ def request(case):
         return C.enc(["expr", "canonical_equal", case["a"], case["b"]])
     if kind == "ws":
         return C.enc(["expr", "well_scoped", case["e"]])
+    if kind == "wsw":
+        return C.enc(["expr", "well_scoped_mw", case["e"]])
     if kind == "den":
         if any(isinstance(t, list) and t[0] == "Q" for t in GE.subterms(case["e"])):
             return None
@@ -375,11 +488,15 @@ MANIFEST = {
              "sums, fractions, One/Zero), every ordering covering its variables, every distribution family satisfying the "
              "probability laws and every valuation with non-vanishing denominators, the canonical form has the same denotation; "
              "canon_total - on such inputs canonicalisation returns an expression unless a denominator canonicalises to Zero(); "
-             "canonical_equal_sound - canonically equal expressions are semantically equal. Model tied to the Python on every "
+             "canonical_equal_sound - canonically equal expressions are semantically equal; canon_den_mw / canon_total_mw / "
+             "canonical_equal_sound_mw - the same three for the widened class WellScopedW whose leaves may be multi-world joints "
+             "with several children on one base variable (P(Y@+X, Y@-X, Z)), for every distribution family on counterfactual "
+             "variables and in particular every functional SCM (after the repair of Sum.simplify found through that class). Model tied to the Python on every "
              "run by differential testing on raw expression objects; the specification's denotation is cross-checked against "
              "the exact-rational oracle evaluator on shared concrete environments."),
     "note": ("Trusted: Lean kernel; the specification Y0/Spec/Sem.lean (den, ProbFamily); the hand-written model tied to the "
-             "code by sampling. Outside the quantifier (and outside the theorem): multi-world joint leaves, leaves repeating a "
-             "name, +X values bound by a Sum, Q-factors, Zero() inside denominators."),
+             "code by sampling. Outside the quantifier (and outside the theorems): a Sum that binds an unstarred subscript "
+             "together with an event value of the same leaf, +X values bound by a Sum, Q-factors, Zero() inside denominators; "
+             "on multi-world leaves non-vanishing denominators are a hypothesis (not implied by positivity)."),
     "technique": "Lean 4 theorems over the denotational semantics + differential correspondence with canonicalize() + exact-rational identity-testing oracle",
 }
